@@ -6,10 +6,16 @@ use elliptic_curve::hash2curve::ExpandMsg;
 use zkryptium::bbsplus::generators::Generators;
 use zkryptium::utils::message::bbsplus_message::BBSplusMessage;
 
+/// Stub for `alloc::fmt::format` (error paths build their messages with `format!`; formatting a
+/// symbolic integer explodes the symbolic execution and is not the subject of any property).
+pub fn fmt_stub(_args: core::fmt::Arguments<'_>) -> String {
+    String::new()
+}
+
 pub const GT: usize = 12;
 /// generator table: [0..6) for the first api_id family seen as "plain/blind main",
 /// [6..12) for the "BLIND_"-prefixed family
-pub static mut GEN_TABLE: [u8; GT] = [1; GT];
+pub static mut GEN_TABLE: [u16; GT] = [1; GT];
 /// P1 stand-in returned by the stub (the real `create` parses CS::P1)
 pub static mut GEN_CALLS: usize = 0;
 pub static mut GEN_LAST_COUNT: usize = 0;
@@ -19,13 +25,13 @@ pub static mut GEN_BUDGET: usize = 6;
 
 pub const MT: usize = 8;
 /// message-scalar table: the k-th mapped message (over all calls, in call order) gets MSG_TABLE[k]
-pub static mut MSG_TABLE: [u8; MT] = [0; MT];
+pub static mut MSG_TABLE: [u16; MT] = [0; MT];
 pub static mut MSG_NEXT: usize = 0;
 pub static mut MSG_CALLS: usize = 0;
 
 pub const HT: usize = 6;
 /// hash_to_scalar answers by call order
-pub static mut H2S_TABLE: [u8; HT] = [0; HT];
+pub static mut H2S_TABLE: [u16; HT] = [0; HT];
 pub static mut H2S_NEXT: usize = 0;
 pub static mut H2S_MSG_LEN: [usize; HT] = [0; HT];
 pub static mut H2S_DST_LEN: [usize; HT] = [0; HT];
@@ -149,14 +155,27 @@ where
 #[cfg(kani)]
 pub mod sym {
     use super::*;
-    /// fill the generator table with symbolic non-zero values
+    /// any non-identity group element (discrete log 1..=256)
+    pub fn any_elem() -> u16 {
+        let v: u8 = kani::any();
+        v as u16 + 1
+    }
+    /// any scalar that fits one octet (0..=255); 256 is the only field element left out
+    pub fn any_scalar() -> Scalar {
+        let v: u8 = kani::any();
+        Scalar(v as u16)
+    }
+    pub fn any_nonzero_scalar() -> Scalar {
+        let v: u8 = kani::any();
+        kani::assume(v != 0);
+        Scalar(v as u16)
+    }
+    /// fill the generator table with symbolic non-identity elements
     pub fn any_gen_table() {
         let mut i = 0;
         while i < GT {
-            let v: u8 = kani::any();
-            kani::assume(v != 0 && (v as u16) < Q);
             unsafe {
-                GEN_TABLE[i] = v;
+                GEN_TABLE[i] = any_elem();
             }
             i += 1;
         }
@@ -164,10 +183,8 @@ pub mod sym {
     pub fn any_msg_table() {
         let mut i = 0;
         while i < MT {
-            let v: u8 = kani::any();
-            kani::assume((v as u16) < Q);
             unsafe {
-                MSG_TABLE[i] = v;
+                MSG_TABLE[i] = any_scalar().0;
             }
             i += 1;
         }
@@ -175,31 +192,23 @@ pub mod sym {
     pub fn any_h2s_table() {
         let mut i = 0;
         while i < HT {
-            let v: u8 = kani::any();
-            kani::assume((v as u16) < Q);
             unsafe {
-                H2S_TABLE[i] = v;
+                H2S_TABLE[i] = any_scalar().0;
             }
             i += 1;
         }
     }
-    pub fn any_scalar() -> Scalar {
-        let v: u8 = kani::any();
-        kani::assume((v as u16) < Q);
-        Scalar(v)
-    }
-    pub fn any_nonzero_scalar() -> Scalar {
-        let v: u8 = kani::any();
-        kani::assume(v != 0 && (v as u16) < Q);
-        Scalar(v)
-    }
     pub fn any_sk() -> BBSplusSecretKey {
         BBSplusSecretKey(any_nonzero_scalar())
     }
-    /// symbolic-length prefix helper
-    pub fn any_len(max: usize) -> usize {
-        let l: usize = kani::any();
-        kani::assume(l <= max);
-        l
+    /// canonical compressed G1 encoding of a symbolic non-identity element: decoding it never
+    /// branches on the symbolic payload
+    pub fn put_g1(b: &mut [u8], off: usize) {
+        b[off] = 0x80;
+        b[off + 47] = kani::any();
+    }
+    /// canonical scalar encoding of a symbolic one-octet scalar
+    pub fn put_scalar(b: &mut [u8], off: usize) {
+        b[off + 31] = kani::any();
     }
 }
